@@ -66,6 +66,11 @@ FailedProps(Cands, ev) ==
 \cup (IF no(IsData) /\ (\E cand \in Cands : HasFailure(cand)) /\ (\E cand \in Cands : cand.closed # {})
       THEN {"C07.SurvivorMissed"} ELSE {})
 \cup (IF no(IsData) /\ (\E cand \in Cands : HasFailure(cand)) THEN {"C14.OthersMissed"} ELSE {})
+\* a departure was discovered in this step (by the specification and by the code) and what the
+\* remaining clients received differs from every allowed outcome in frames other than the notices
+\cup (IF (\E cand \in Cands : cand.closed # {}) /\ ObsClosed(ev) # {}
+         /\ (\A cand \in Cands : ~ProjEq(cand.emit, ev.emit, LAMBDA f : ~IsClosedN(f) /\ ~IsFailed(f)))
+      THEN {"C07.SurvivorAffected"} ELSE {})
 \cup (IF no(IsFailed) THEN {"C14"} ELSE {})
 \cup (IF no(IsAck) THEN {"C19"} ELSE {})
 \cup (IF no(IsClosedN) \/ (\A cand \in Cands : cand.closed # ObsClosed(ev)) THEN {"C07"} ELSE {})
